@@ -403,6 +403,60 @@ def hier_cases(shape, levels, bases, rng):
                sig=f"spelling|hier|{shape}")
 
 
+_EARLY = [0]
+
+
+def early_use_cases(rng, n):
+    """order of first use: a class whose string annotations name a node class defined LATER in the module is used
+    (instantiated / asked for its fields) before that class exists -- whatever that early use does (it may raise), the
+    verdicts once the class exists are the ones of the statement: children are children, never silently properties"""
+    import sys
+    import types
+    for _ in range(n):
+        _EARLY[0] += 1
+        k = _EARLY[0]
+        postponed = rng.random() < 0.5
+        q = (lambda t: t) if postponed else (lambda t: f'"{t}"')
+        src1 = (("from __future__ import annotations\n" if postponed else "") + "from dataclasses import dataclass\nfrom typing import Optional\n"
+                "from pyoak.node import ASTNode\n"
+                f"@dataclass(frozen=True)\nclass EuTree{k}(ASTNode):\n    left: {q(f'Optional[EuBranch{k}]')} = None\n"
+                f"    kids: {q(f'tuple[EuBranch{k}, ...]')} = ()\n    label: str = ''\n")
+        src2 = f"@dataclass(frozen=True)\nclass EuBranch{k}(ASTNode):\n    v: int = 0\n"
+        m = types.ModuleType(f"c11_early{k}")
+        sys.modules[m.__name__] = m
+        fail = None
+        early = rng.choice(["get_child_fields", "instantiate", "get_property_fields", "none"])
+        try:
+            exec(compile(src1, m.__name__, "exec"), m.__dict__)
+            T = m.__dict__[f"EuTree{k}"]
+            try:
+                if early == "get_child_fields":
+                    T.get_child_fields()
+                elif early == "instantiate":
+                    T()
+                elif early == "get_property_fields":
+                    list(T.get_property_fields())
+            except Exception:  # noqa  (the forward reference cannot be resolved yet)
+                pass
+            exec(compile(src2, m.__name__, "exec"), m.__dict__)
+            B = m.__dict__[f"EuBranch{k}"]
+            t = T(left=B(v=1), kids=(B(v=2), B(v=3)))
+            cf = sorted(f.name for f in T.get_child_fields())
+            pf = sorted(f.name for f in T.get_property_fields())
+            kids = [type(x).__name__ for x in t.get_child_nodes()]
+            if cf != ["kids", "left"] or "left" in pf or "kids" in pf or "label" not in pf:
+                fail = f"after early use by {early}: child fields {cf}, properties {pf} (expected children kids, left; property label)"
+            elif len(kids) != 3 or len(list(t.dfs())) != 3:
+                fail = f"after early use by {early}: get_child_nodes yields {kids}"
+        except Exception as e:  # noqa
+            fail = f"{type(e).__name__}: {e}"[:200]
+        finally:
+            sys.modules.pop(m.__name__, None)
+        yield Case("directed:early-use", None, None, True,
+                   f"class with {'postponed' if postponed else 'string'} annotations naming a later class; early use: {early}",
+                   oracle_fail=fail, sig="annot|directed|early-use")
+
+
 _SHADOW = [0]
 
 
@@ -470,6 +524,7 @@ def name_shadow_cases(rng, n):
 def cases(rng: random.Random, tier: str):
     quick = tier == "quick"
     yield from name_shadow_cases(rng, 8 if quick else 120)
+    yield from early_use_cases(rng, 8 if quick else 120)
     # 1. the shapes the statement names
     sps = all_spellings()
     for i, t in enumerate(NAMED):
